@@ -39,6 +39,7 @@ type Flight struct {
 }
 
 type NetOpts struct {
+	MainIdx   []int // members run as full MainLoops (two goroutines, driven through the public API)
 	N         int
 	Weights   []uint64
 	ByzIdx    []int
@@ -65,11 +66,26 @@ func NewNet(c *Ctx, o NetOpts, label string) *Net {
 		if net.byz[string(id)] {
 			continue
 		}
-		n := NewRealNode(w, idx, id, nil)
+		var n *RealNode
+		isMain := false
+		for _, mi := range o.MainIdx {
+			if mi == i {
+				isMain = true
+			}
+		}
+		if isMain {
+			n = NewRealMainNode(w, idx, id)
+		} else {
+			n = NewRealNode(w, idx, id, nil)
+		}
 		n.MonViol = func(prop, sig, what string) { c.Violation(prop, sig, what, net.replay()) }
 		net.nodes[string(id)] = n
 		net.order = append(net.order, n)
-		c.Emit(fmt.Sprintf("%d init %s %d", idx, hexid(id), o.Inst), "init")
+		if isMain {
+			c.Emit(fmt.Sprintf("%d linit %s %d", idx, hexid(id), o.Inst), "init")
+		} else {
+			c.Emit(fmt.Sprintf("%d init %s %d", idx, hexid(id), o.Inst), "init")
+		}
 		idx++
 	}
 	net.mon = NewMonitors(net)
@@ -83,6 +99,18 @@ func NewNet(c *Ctx, o NetOpts, label string) *Net {
 // emit one event of a correct node: op line (with SPI answers) and the node's observed reaction
 func (net *Net) event(n *RealNode, ev string, f func() (string, string)) {
 	spi, out := f()
+	if n.Main != nil { // the same event, injected through the public API of a running MainLoop
+		switch {
+		case strings.HasPrefix(ev, "deliver "):
+			ev = "lmsg " + strings.TrimPrefix(ev, "deliver ")
+		case strings.HasPrefix(ev, "election "):
+			ev = "ltrigger " + strings.TrimPrefix(ev, "election ")
+		case ev == "update 0":
+			ev = "lsync -"
+		case strings.HasPrefix(ev, "update "):
+			ev = "lsync " + strings.TrimPrefix(ev, "update ")
+		}
+	}
 	line := fmt.Sprintf("%d %s", n.Idx, ev)
 	if spi != "" {
 		line += " " + spi
